@@ -149,6 +149,15 @@ CHECKS = {
         "subscripts between builtin types).",
         "Trusted: CPython 3.12; statements raising other exceptions (KeyError, "
         "IndexError, unhashable key, ...) are outside the domain and counted."),
+    "C02": (
+        "exhaustive annotation x value x site grid (stratified in the quick "
+        "tier), independent PEP 484 run-time membership oracle",
+        "About 66k (annotation to depth 2, ground value, site) triples, many per "
+        "analysed module, one per line; an error of the site's class on the "
+        "line iff the evaluated value is not a member of the annotation.",
+        "Trusted: the membership function in props/c02_annotations.py; "
+        "documented leniencies are excluded from the domain (str vs string "
+        "iterables, union-typed arguments, None vs bool, x: T = None)."),
 }
 
 PENDING_REASON = ("check not built yet in this round; planned per DESIGN.md "
